@@ -68,25 +68,137 @@ theorem poolInvalidate_shrinks (db : DB) : Shrinks db db.poolInvalidate := by
   unfold DB.poolInvalidate
   split <;> exact shrinks_of_eq rfl rfl rfl rfl rfl
 
-theorem checkout_shrinks (db : DB) : Shrinks db db.checkout := by
+/-- everything `checkoutPre` can do: pop the head of the queue and maybe read the clock -/
+structure PreSpec (db db1 : DB) (o : Option Raw) : Prop where
+  reset : db1.reset = db.reset
+  committed : db1.committed = db.committed
+  raw : db1.raw = db.raw
+  faults : db1.faults = db.faults
+  listener : db1.listener = db.listener
+  engineOpts : db1.engineOpts = db.engineOpts
+  recycle : db1.recycle = db.recycle
+  nextRid : db1.nextRid = db.nextRid
+  invalTime : db1.invalTime = db.invalTime
+  clock : db.clock ≤ db1.clock
+  idle : ∀ x, some x ∈ db1.idle → some x ∈ db.idle
+  out : ∀ r, o = some r → some r ∈ db.idle ∧ ¬ (db.invalTime > r.born)
+
+theorem staleCheck_spec (db : DB) (r : Raw) :
+    (db.staleCheck r).1.reset = db.reset ∧ (db.staleCheck r).1.committed = db.committed ∧
+    (db.staleCheck r).1.raw = db.raw ∧ (db.staleCheck r).1.faults = db.faults ∧
+    (db.staleCheck r).1.listener = db.listener ∧ (db.staleCheck r).1.engineOpts = db.engineOpts ∧
+    (db.staleCheck r).1.recycle = db.recycle ∧ (db.staleCheck r).1.nextRid = db.nextRid ∧
+    (db.staleCheck r).1.invalTime = db.invalTime ∧ db.clock ≤ (db.staleCheck r).1.clock ∧
+    (db.staleCheck r).1.idle = db.idle ∧
+    ((db.staleCheck r).2 = false → ¬ (db.invalTime > r.born)) := by
+  unfold DB.staleCheck
+  cases hr : db.recycle with
+  | none => simp [hr]
+  | some rc => simp [DB.tick, hr]
+
+theorem checkoutPre_spec (db : DB) : PreSpec db db.checkoutPre.1 db.checkoutPre.2.1 := by
+  unfold DB.checkoutPre
+  cases hi : db.idle with
+  | nil =>
+    exact ⟨rfl, rfl, rfl, rfl, rfl, rfl, rfl, rfl, rfl, Nat.le_refl _, fun x h => by rw [hi] at h ⊢; exact h,
+      fun r h => by cases h⟩
+  | cons x rest =>
+    cases x with
+    | none =>
+      exact ⟨rfl, rfl, rfl, rfl, rfl, rfl, rfl, rfl, rfl, Nat.le_refl _,
+        fun y h => by rw [hi]; exact List.mem_cons_of_mem _ h, fun r h => by cases h⟩
+    | some r =>
+      simp only []
+      obtain ⟨a1, a2, a3, a4, a5, a6, a7, a8, a9, a10, a11, a12⟩ :=
+        staleCheck_spec ({ db with idle := rest } : DB) r
+      cases hst : (({ db with idle := rest } : DB).staleCheck r).2 with
+      | true =>
+        simp only [if_true]
+        exact ⟨a1, a2, a3, a4, a5, a6, a7, a8, a9, a10,
+          fun y h => by rw [a11] at h; rw [hi]; exact List.mem_cons_of_mem _ h, fun r' h => by cases h⟩
+      | false =>
+        simp only [Bool.false_eq_true, if_false]
+        refine ⟨a1, a2, a3, a4, a5, a6, a7, a8, a9, a10,
+          fun y h => by rw [a11] at h; rw [hi]; exact List.mem_cons_of_mem _ h, fun r' h => ?_⟩
+        simp only [Option.some.injEq] at h
+        subst h
+        exact ⟨by rw [hi]; exact List.mem_cons_self, a12 hst⟩
+
+/-- a state reached by `checkoutPre` relates to the original like `Shrinks` -/
+theorem preSpec_shrinks {db db1 : DB} {o : Option Raw} (h : PreSpec db db1 o) : Shrinks db db1 :=
+  ⟨h.reset, h.idle, fun _ hi => by unfold HeldIso; rw [h.raw]; exact hi⟩
+
+/-- `staleCheck` at most reads the clock -/
+theorem staleCheck_state (db : DB) (r : Raw) :
+    (db.staleCheck r).1 = db ∨ (db.staleCheck r).1 = db.tick.1 := by
+  unfold DB.staleCheck
+  cases db.recycle with
+  | none => exact Or.inl rfl
+  | some rc => exact Or.inr rfl
+
+/-- whatever is closed under "new DBAPI connection" and "clock reading" holds of a freshly
+    created and checked-out record -/
+theorem freshRaw_cases (db : DB) (P : DB → Prop) (h1 : P db.newRaw)
+    (ht : ∀ d, P d → P d.tick.1) (hn : ∀ d, P d → P d.newRaw) : P db.freshRaw := by
+  unfold DB.freshRaw
+  simp only []
+  rcases staleCheck_state db.newRaw db.newRaw.raw with h | h
+  · split
+    · rw [h]; exact hn _ h1
+    · rw [h]; exact h1
+  · split
+    · rw [h]; exact hn _ (ht _ h1)
+    · rw [h]; exact ht _ h1
+
+/-- case analysis of a successful `Pool.connect()` -/
+theorem checkout_cases (db : DB) (P : DB → Prop)
+    (h1 : ∀ db1 r, PreSpec db db1 (some r) → P (db1.handOut r))
+    (h2 : ∀ db1, PreSpec db db1 none → P db1.newRaw)
+    (ht : ∀ d, P d → P d.tick.1) (hn : ∀ d, P d → P d.newRaw) : P db.checkout := by
+  have hp := checkoutPre_spec db
   unfold DB.checkout
-  split
-  · exact newRaw_shrinks db
-  · rename_i rest he
-    exact ⟨rfl, fun r h => by rw [he]; exact List.mem_cons_of_mem _ h,
-      fun _ _ => heldIso_clean rfl rfl⟩
-  · rename_i r rest he
-    have hsub : ∀ x, some x ∈ rest → some x ∈ db.idle := fun x h => by
-      rw [he]; exact List.mem_cons_of_mem _ h
-    have hclean : PoolClean db → r.autocommit = false ∧ r.readUnc = false := fun hc => by
-      have := hc r (by rw [he]; exact List.mem_cons_self)
-      exact ⟨this.2.2.1, this.2.2.2.1⟩
-    simp only []
-    split
-    · exact ⟨rfl, hsub, fun _ _ => heldIso_clean rfl rfl⟩
-    · split
-      · exact ⟨rfl, hsub, fun hc _ => heldIso_clean (hclean hc).1 (hclean hc).2⟩
-      · exact ⟨rfl, hsub, fun hc _ => heldIso_clean (hclean hc).1 (hclean hc).2⟩
+  cases hx : db.checkoutPre with
+  | mk db1 rest =>
+    obtain ⟨o, hr⟩ := rest
+    rw [hx] at hp
+    cases o with
+    | none =>
+      cases hr with
+      | true => exact h2 db1 hp
+      | false => exact freshRaw_cases db1 P (h2 db1 hp) ht hn
+    | some r => exact h1 db1 r hp
+
+theorem handOut_frame (db : DB) (r : Raw) :
+    (db.handOut r).reset = db.reset ∧ (db.handOut r).committed = db.committed ∧
+    (db.handOut r).faults = db.faults ∧ (db.handOut r).listener = db.listener ∧
+    (db.handOut r).engineOpts = db.engineOpts ∧ (db.handOut r).recycle = db.recycle ∧
+    (db.handOut r).nextRid = db.nextRid ∧ (db.handOut r).invalTime = db.invalTime ∧
+    (db.handOut r).clock = db.clock ∧ (db.handOut r).idle = db.idle ∧
+    (db.handOut r).raw.rid = r.rid ∧ (db.handOut r).raw.born = r.born := by
+  unfold DB.handOut
+  split <;> exact ⟨rfl, rfl, rfl, rfl, rfl, rfl, rfl, rfl, rfl, rfl, rfl, rfl⟩
+
+theorem checkout_shrinks (db : DB) : Shrinks db db.checkout := by
+  apply checkout_cases db (fun d => Shrinks db d)
+  · intro db1 r hp
+    have hin := (hp.out r rfl).1
+    refine ⟨?_, ?_, ?_⟩
+    · have : (db1.handOut r).reset = db1.reset := by unfold DB.handOut; split <;> rfl
+      rw [this]; exact hp.reset
+    · intro x hx
+      have : (db1.handOut r).idle = db1.idle := by unfold DB.handOut; split <;> rfl
+      rw [this] at hx; exact hp.idle x hx
+    · intro hc _
+      have := hc r hin
+      have e1 : (db1.handOut r).raw.autocommit = r.autocommit := by unfold DB.handOut; split <;> rfl
+      have e2 : (db1.handOut r).raw.readUnc = r.readUnc := by unfold DB.handOut; split <;> rfl
+      exact heldIso_clean (by rw [e1]; exact this.2.2.1) (by rw [e2]; exact this.2.2.2.1)
+  · intro db1 hp
+    exact (preSpec_shrinks hp).trans (newRaw_shrinks db1)
+  · intro d h
+    exact h.trans (shrinks_of_eq rfl rfl rfl rfl rfl)
+  · intro d h
+    exact h.trans (newRaw_shrinks d)
 
 theorem apply_shrinks (db : DB) (q : Sql) (db' : DB) (r : Res) (h : db.apply q = (some db', r)) :
     Shrinks db db' := by
@@ -201,16 +313,108 @@ theorem checkout_held_clean (db : DB) (hc : PoolClean db) :
     db.checkout.raw.working = db.checkout.committed ∧ db.checkout.raw.saves = [] ∧
     db.checkout.raw.autocommit = false ∧ db.checkout.raw.readUnc = false ∧
     db.checkout.raw.finalize = [] := by
-  unfold DB.checkout
-  split
-  · simp [DB.newRaw, DB.tick]
-  · simp [DB.newRaw, DB.tick]
-  · rename_i r rest he
-    obtain ⟨h1, h2, h3, h4, h5⟩ := hc r (by rw [he]; exact List.mem_cons_self)
-    simp only []
-    split
-    · simp [DB.newRaw, DB.tick]
-    · simp [h1, h2, h3, h4, h5]
+  apply checkout_cases db (fun d => d.raw.working = d.committed ∧ d.raw.saves = [] ∧
+    d.raw.autocommit = false ∧ d.raw.readUnc = false ∧ d.raw.finalize = [])
+  · intro db1 r hp
+    obtain ⟨h1, h2, h3, h4, h5⟩ := hc r (hp.out r rfl).1
+    simp only [DB.handOut, h1, if_true]
+    exact ⟨trivial, h2, h3, h4, h5⟩
+  · intro db1 _
+    simp [DB.newRaw, DB.tick]
+  · intro d h
+    exact h
+  · intro d _
+    simp [DB.newRaw, DB.tick]
+
+/-- what a failing connect leaves behind -/
+theorem checkoutF_shrinks (db : DB) : Shrinks db db.checkoutF.1 := by
+  have hp := checkoutPre_spec db
+  unfold DB.checkoutF
+  cases hx : db.checkoutPre with
+  | mk db1 rest =>
+    obtain ⟨o, hr⟩ := rest
+    rw [hx] at hp
+    simp only [] at hp
+    have hs := preSpec_shrinks hp
+    cases o with
+    | some r => exact checkout_shrinks db
+    | none =>
+      simp only []
+      cases hf : db1.takeFault .connect with
+      | mk ok db2 =>
+        have hs2 : Shrinks db1 db2 := by
+          have := takeFault_shrinks db1 .connect; rw [hf] at this; exact this
+        cases ok with
+        | none => exact checkout_shrinks db
+        | some k =>
+          simp only []
+          have h3 : Shrinks db2 db2.tick.1 := shrinks_of_eq rfl rfl rfl rfl rfl
+          cases hr with
+          | false => exact (hs.trans hs2).trans h3
+          | true =>
+            simp only [if_true]
+            refine ((hs.trans hs2).trans h3).trans ⟨rfl, fun x hx' => ?_, fun _ hi => hi⟩
+            have hx'' : some x ∈ db2.tick.1.idle ++ [none] := hx'
+            rcases List.mem_append.1 hx'' with h | h
+            · exact h
+            · simp at h
+
+theorem checkoutF_none {db db' : DB} (h : db.checkoutF = (db', none)) : db' = db.checkout := by
+  unfold DB.checkoutF at h
+  split at h
+  · split at h
+    · simp at h
+    · simp only [Prod.mk.injEq] at h; exact h.1.symm
+  · simp only [Prod.mk.injEq] at h; exact h.1.symm
+
+theorem checkout_faults (db : DB) : db.checkout.faults = db.faults := by
+  apply checkout_cases db (fun d => d.faults = db.faults)
+  · intro db1 r hp
+    rw [(handOut_frame db1 r).2.2.1]; exact hp.faults
+  · intro db1 hp
+    simp only [DB.newRaw, DB.tick]; exact hp.faults
+  · intro d h; exact h
+  · intro d h; simp only [DB.newRaw, DB.tick]; exact h
+
+theorem checkout_listener (db : DB) : db.checkout.listener = db.listener := by
+  apply checkout_cases db (fun d => d.listener = db.listener)
+  · intro db1 r hp
+    rw [(handOut_frame db1 r).2.2.2.1]; exact hp.listener
+  · intro db1 hp
+    simp only [DB.newRaw, DB.tick]; exact hp.listener
+  · intro d h; exact h
+  · intro d h; simp only [DB.newRaw, DB.tick]; exact h
+
+/-- with no fault armed `Pool.connect()` succeeds -/
+theorem checkoutF_nofault {db : DB} (hf : db.faults = []) : db.checkoutF = (db.checkout, none) := by
+  have hp := checkoutPre_spec db
+  unfold DB.checkoutF
+  cases hx : db.checkoutPre with
+  | mk db1 rest =>
+    obtain ⟨o, hr⟩ := rest
+    rw [hx] at hp
+    cases o with
+    | some r => rfl
+    | none =>
+      simp only []
+      have : db1.takeFault .connect = (none, db1) := by
+        unfold DB.takeFault
+        rw [hp.faults, hf]; rfl
+      rw [this]
+
+/-- shape of a failed `Pool.connect()` -/
+theorem checkoutF_some {db db' : DB} {k : FKind} (h : db.checkoutF = (db', some k)) :
+    ∃ db1 hasRec db2, db.checkoutPre = (db1, none, hasRec) ∧ db1.takeFault .connect = (some k, db2) ∧
+      db' = (if hasRec then { db2.tick.1 with idle := db2.tick.1.idle ++ [none] } else db2.tick.1) := by
+  unfold DB.checkoutF at h
+  split at h
+  · rename_i db1 hasRec hx
+    split at h
+    · rename_i k' db2 hf
+      simp only [Prod.mk.injEq, Option.some.injEq] at h
+      exact ⟨db1, hasRec, db2, hx, by rw [hf, h.2], h.1.symm⟩
+    · simp at h
+  · simp at h
 
 /-- `_set_connection_characteristics` keeps pool and reset style, and queues the callback
     that will undo what it sets -/
@@ -380,7 +584,11 @@ theorem revalidate_pres (c : Conn) : Pres c c.revalidate.1 := by
   split
   · split
     · exact Pres.refl c
-    · exact ⟨wfc_congr rfl rfl rfl, checkout_shrinks c.db⟩
+    · have hs := checkoutF_shrinks c.db
+      cases hx : c.db.checkoutF with
+      | mk db1 ok =>
+        rw [hx] at hs
+        cases ok <;> exact ⟨wfc_congr rfl rfl rfl, hs⟩
   · exact Pres.refl c
 
 theorem connProp_pres (c : Conn) : Pres c c.connProp.1 := by
